@@ -189,7 +189,7 @@ class Env:
     """one Application with recording listeners on every manager, built from a world spec"""
 
     def __init__(self, inp, outp, world, user='ok', stage_inj=None, msgpack_keys='bytes', validator='soft', shape='value',
-                 no_out_string=False, kind='rpc', style='wrapped', dispatch_real=None):
+                 no_out_string=False, kind='rpc', style='wrapped', dispatch_real=None, preset=None):
         from spyne import Application, rpc, mrpc, Service, Integer, Unicode, Fault, EventManager, Iterable, Ignored, ComplexModel
         from spyne.error import Redirect
         self.names = []           # (event, ctx.method_name, ctx.service_class is not None) as the observer sees them
@@ -257,9 +257,23 @@ class Env:
             def close(self):
                 self.n += 1
 
+        def do_preset(ctx):
+            # user code / a listener hands over ready-made pipeline outputs (a response cache)
+            if preset['what'] == 'out_document':
+                if outp in XML_FAMILY:
+                    from lxml import etree
+                    ctx.out_document = etree.fromstring('<cached xmlns="tns">from-cache</cached>')
+                else:
+                    ctx.out_document = [b'from-cache'] if outp == 'http' else [{'cached': 'from-cache'}]
+            else:
+                ctx.out_object = ['replaced']
+        self.do_preset = do_preset
+
         def body(ctx, a):
             env.user_calls += 1
             env.trace.append(['user'])
+            if preset and preset['at'] == 'user' and preset['what'] == 'out_document':
+                do_preset(ctx)
             c = Closable()
             env.files.append(c)
             ctx.files.append(c)
@@ -347,6 +361,8 @@ class Env:
         register(self.app.event_manager, 'app', world['app'].get('regs', []), world['app'].get('ops', ()))
         register(self.inp.event_manager, 'inprot', world['inprot'].get('regs', []), world['inprot'].get('ops', ()))
         register(self.outp.event_manager, 'outprot', world['outprot'].get('regs', []), world['outprot'].get('ops', ()))
+        if preset and preset['at'] != 'user':
+            self.app.event_manager.add_listener(preset['at'], lambda ctx: do_preset(ctx))      # (not part of the world)
         # stage wrappers on the protocol *instances*
         for stage, name in STAGE_METHOD.items():
             self._wrap(self.inp, name, stage, stage_inj)
@@ -705,7 +721,7 @@ def run_case(case, msgpack_keys):
     stage_inj = (inj['stage'], inj['kind']) if inj['type'] == 'forced' else None
     env = Env(case['inp'], case['outp'], case['world'], user=case['user'], stage_inj=stage_inj, msgpack_keys=msgpack_keys,
               shape=case.get('shape', 'value'), kind=case.get('kind', 'rpc'), style=case.get('style', 'wrapped'),
-              dispatch_real=case.get('dispatch_real'))
+              dispatch_real=case.get('dispatch_real'), preset=case.get('preset'))
     if inj['type'] == 'raw':
         body, http = bytes.fromhex(inj['hex']), None
     else:
@@ -980,6 +996,19 @@ def measure_facts(msgpack_keys):
         except Exception:
             f['spellingReaches'][sp] = False
 
+    # get_out_string_pull when ctx.out_document has been pre-set
+    env = Env('xml', 'xml', quiet_world(), preset={'at': 'none', 'what': 'out_document'})
+    n = len(env.trace)
+    try:
+        srv, p = ctx_ready(env)
+        srv.get_out_object(p)
+        env.do_preset(p)
+        n = len(env.trace)
+        srv.get_out_string(p)
+        f['getOutStringPreset'] = probe_syms(env.trace, n)
+    except Exception as e:
+        f['getOutStringPreset'] = probe_syms(env.trace, n) + ['<crash:%s>' % type(e).__name__]
+
     # listeners that change the handler set while it fires: the witness scenarios
     f['reentrantCalls'] = [real_refire(sc, pr)[0] for sc, pr in REENTRANT_SCENARIOS]
 
@@ -1047,6 +1076,7 @@ GOOD_FACTS = {
     'wsgiRefuse': {'fault': (['method_exception_object'], False), 'exc': (['method_exception_object'], False)},
     'spellingReaches': {sp: True for sp in ['_evmgr', '_event_manager', '_evmgrs', '_event_managers']},
     'mrpcServiceReaches': True,
+    'getOutStringPreset': ['method_return_document', 'method_return_string'],
     'reentrantCalls': [[1, 3, 2], [1, 3], [1, 2], [1, 2, 3], [1], [1, 2], [1, 2, 1, 3]],
 }
 LEAN_OUTP = {'xml': 'xml', 'soap11': 'soap11', 'soap12': 'soap12', 'json': 'json', 'yaml': 'yaml', 'msgpack': 'msgpack',
@@ -1106,6 +1136,7 @@ def facts14 : Facts14 where
 %s
   mrpcServiceReaches := %s
   reentrantCalls := %s
+  getOutStringPreset := %s
   serOk := fun o sh => match o, sh with
 %s
   serErr := fun o => match o with
@@ -1127,7 +1158,7 @@ end SpyneModel.Generated
        lean_meas(f['wsgiRefuse']['fault']),
        lean_meas(f['wsgiRefuse']['exc']),
        '\n'.join('    | .%s => %s' % (LEAN_SPELLING[k], b(v)) for k, v in f['spellingReaches'].items()),
-       b(f['mrpcServiceReaches']), json.dumps(f['reentrantCalls']), ser_ok, ser_err, ser_part, none_ok, none_err)
+       b(f['mrpcServiceReaches']), json.dumps(f['reentrantCalls']), evs(f['getOutStringPreset']), ser_ok, ser_err, ser_part, none_ok, none_err)
 
 
 def fact_witness_case(key, sub=None):
@@ -1162,6 +1193,8 @@ def fact_witness_case(key, sub=None):
         base['inj'] = {'type': 'wsdl', 'fail': True}
     elif key == 'wsgiRefuse':
         base['inj'] = {'type': 'refuse', 'variant': 'too-long-declared' if sub == 'fault' else 'stream-error'}
+    elif key == 'getOutStringPreset':
+        base['preset'] = {'at': 'method_return_object', 'what': 'out_document'}
     elif key == 'mrpcServiceReaches':
         base.update(kind='mrpcsvc')
         w['svc'] = {'regs': [['method_call', 5]]}
@@ -1385,6 +1418,12 @@ def gen_cases(ctx):
                 w.update(spelling=sp, shared=True)
                 if not mgr_handlers(w['svc'], 'method_call'):
                     w['svc'].setdefault('regs', []).append(['method_call', 4])
+            # user code / listeners that pre-set pipeline outputs: the remaining events still fire, once (directed, every seed)
+            for at in ('method_call', 'user', 'method_return_object'):
+                for what in ('out_document', 'out_object'):
+                    if what == 'out_object' and at != 'method_return_object':
+                        continue
+                    add(inp, outp, transport, ok, 'ok', None, 'preset', preset={'at': at, 'what': what})
             # a bare output message
             add(inp, outp, transport, ok, 'ok', rng.choice(raisers[:5]), 'out-bare', style='out_bare')
             add(inp, outp, transport, ok, rng.choice(['fault', 'exc']), None, 'out-bare', style='out_bare')
@@ -1576,7 +1615,7 @@ def case_query(case, inj):
     if case['inj']['type'] == 'wsdl':
         return {'op': 'wsdl', 'fails': bool(case['inj'].get('fail')), 'world': world_json(case['world'])}
     return {'op': 'trace', 'outp': case['outp'], 'transport': case['transport'], 'shape': case.get('shape', 'value'),
-            'sig': sig_of(case),
+            'sig': sig_of(case), 'presetdoc': bool(case.get('preset')) and case['preset']['what'] == 'out_document',
             'stage': inj[0], 'kind': inj[1],
             'inner': inj[2], 'world': world_json(case['world'])}
 
